@@ -38,7 +38,7 @@ Proof. destruct s; intros; try reflexivity. congruence. Qed.
 
 Lemma cstep_not_pend s sz b : cstep s sz b <> Pend.
 Proof.
-  destruct s; cbn [cstep]; unfold lws_ext_cr;
+  destruct s; cbn [cstep]; unfold size_digit, lws_ext_cr;
     repeat match goal with
     | |- context [match hexval ?x with _ => _ end] => destruct (hexval x)
     | |- context [if ?c then _ else _] => destruct c
@@ -58,7 +58,7 @@ Definition inv (s : cst) (sz : N) := s = Body -> 0 < sz.
 Lemma cstep_inv s sz b s' sz' : cstep s sz b = Ok (s', sz') -> inv s' sz'.
 Proof.
   intro H. unfold inv. intros ->.
-  destruct s; cbn [cstep] in H; unfold lws_ext_cr in H;
+  destruct s; cbn [cstep] in H; unfold size_digit, lws_ext_cr in H;
     repeat match type of H with
     | context [match hexval ?x with _ => _ end] => destruct (hexval x)
     | context [if ?c then _ else _] => destruct c eqn:?
